@@ -27,7 +27,14 @@ def run(run, env, prop, binpath=None, extra_env=None, key_prefix="model-vs-impl"
     if rc != 0:
         tail = out[-1500:]
         if "fatal error" in out or "panic:" in out:
-            run.violation("crash", "the harness process running the server crashed: " + tail[-400:], dict(log=tail))
+            # the panic / fatal line and the first frames of the goroutine that died (the tail is other goroutines' stacks)
+            m = re.search(r"^(panic:|fatal error:)", out, re.M)
+            head = out[m.start():m.start() + 1800] if m else tail
+            frames = [l.strip().split("(")[0].split("go-ucanto/")[-1] for l in head.splitlines() if "go-ucanto/" in l and not l.startswith("\t")][:3]
+            first = head.splitlines()[0][:200] if head else ""
+            run.violation("crash", "the process running the server died while a batch was executed: %s%s" % (
+                first, (" at " + " <- ".join(frames)) if frames else ""), dict(log=head + "\n...\n" + tail[-600:],
+                how="work/bin/harness gen %s -tier %s -seed %d -out <dir>" % (prop, run.tier, run.seed)))
         else:
             run.violation("harness-run", "harness gen %s failed: %s" % (prop, tail[-600:]), dict(log=tail), no_input=True)
         return None
